@@ -70,6 +70,7 @@ class Ctx:
         self.case = case
         self.sub = sub
         self.world_exec = 0
+        self.world_digests = []
         for n in os.listdir(self.workdir):
             p = os.path.join(self.workdir, n)
             if os.path.isdir(p):
@@ -126,6 +127,7 @@ class Ctx:
         self.last_files_digest = world.digest(self.last_norm_files)
         d = world.execution_digest(out, self.workdir)
         self.exec_digests.add(d)
+        self.world_digests.append(d)
         # determinism self-check on ~5 % of executions (selected by hashing, never by the PRNG)
         if self.recheck and int(hashlib.sha256(f"{self.sub}/{self.world_exec}".encode()).hexdigest()[:8], 16) % 20 == 0:
             ex2 = copy.deepcopy(ex)
@@ -181,7 +183,7 @@ def cmd_run(a):
                 tw = time.time()
                 rep = run_world(prop, case, ctx, sub)
                 line = {"world": w, "secondary": secondary, "hash_seed": hs, "report": rep,
-                        "wall": round(time.time() - tw, 3)}
+                        "wall": round(time.time() - tw, 3), "digests": list(getattr(ctx, "world_digests", []))}
                 if rep["violations"] or (done < 1 and not secondary):
                     line["case"] = case
                 out.write(json.dumps(line) + "\n")
